@@ -1,5 +1,6 @@
 import SaVerif.Lemmas.Topo
 import SaVerif.Lemmas.TopoCycles
+import SaVerif.Lemmas.TopoCyclesComplete
 /-!
 # C19 — Dependency sorting is a correct topological order; cycles exactly reported
 
@@ -342,13 +343,12 @@ theorem sort_error_iff_cycle (ts : List Edge) (items : List Node) :
 
 /-! ## cycle detection
 
-Full statement (exactness), for every neighbour iteration order:
-  `x ∈ findCycles ts ↔ OnCycle ts x`.
-Proved below: the soundness direction (`→`), i.e. cycle detection never reports a
-node that is not on a cycle.  The completeness direction (`←`, every node on a
-cycle is reported — it needs "the DFS from a node visits everything reachable
-from it") is not yet a theorem; it is covered by the exhaustive correspondence
-(all digraphs on ≤ 4 nodes) and the independent oracle on random larger graphs. -/
+Exactness: `x ∈ findCycles ts ↔ OnCycle ts x`.
+* soundness (`→`, `find_cycles_exact_partial`): cycle detection never reports a
+  node that is not on a cycle (invariant `DfsInv`, `Lemmas/TopoCycles.lean`);
+* completeness (`←`, `find_cycles_complete`): every node on a cycle is reported
+  (the DFS from that node ends with an empty stack within the model's fuel, and
+  the "finished nodes" invariant `CInv`, `Lemmas/TopoCyclesComplete.lean`). -/
 
 /-- **find_cycles_exact_partial** (soundness half of exactness) -/
 theorem find_cycles_exact_partial (ts : List Edge) (x : Node) (h : x ∈ findCycles ts) :
@@ -375,6 +375,17 @@ theorem onCycle_path (ts : List Edge) (x : Node) (h : OnCycle ts x) :
     | tail _ e ih => intro c p; exact (ih p).snoc e
   exact key hr (.single hxy)
 
+/-- **find_cycles_complete** (completeness half of exactness): every node that
+    lies on a directed cycle of the dependency pairs is reported. -/
+theorem find_cycles_complete (ts : List Edge) (x : Node) (h : OnCycle ts x) :
+    x ∈ findCycles ts :=
+  findCycles_complete x h
+
+/-- **find_cycles_exact**: `find_cycles` reports exactly the nodes on a cycle. -/
+theorem find_cycles_exact (ts : List Edge) (x : Node) :
+    x ∈ findCycles ts ↔ OnCycle ts x :=
+  ⟨find_cycles_exact_partial ts x, find_cycles_complete ts x⟩
+
 /-! ## non-vacuity -/
 example : sort [(2, 1), (3, 2)] [1, 2, 3] = some [3, 2, 1] := by decide
 example : sort [(2, 1), (1, 2)] [1, 2, 3] = none := by decide
@@ -382,5 +393,14 @@ example : HasCycle [(2, 1), (1, 2)] [1, 2, 3] :=
   ⟨1, .cons (b := 2) ⟨by decide, by decide, by decide⟩ (.single ⟨by decide, by decide, by decide⟩)⟩
 example : sortAsSubsets [(1, 2)] [4, 1, 2, 3] = some [[4, 1, 3], [2]] := by decide
 example : 2 ∈ findCycles [(1, 2), (2, 1), (2, 3), (3, 3)] := by decide
+/-- the hypothesis of `find_cycles_complete` is satisfiable, and the conclusion is
+    not trivially true: node 4 (only reachable from the cycles) is not reported -/
+example : OnCycle [(1, 2), (2, 1), (2, 3), (3, 3), (3, 4)] 1 :=
+  ⟨2, by decide, .tail (.refl _) (by decide)⟩
+example : 1 ∈ findCycles [(1, 2), (2, 1), (2, 3), (3, 3), (3, 4)] :=
+  find_cycles_complete _ _ ⟨2, by decide, .tail (.refl _) (by decide)⟩
+example : 4 ∉ findCycles [(1, 2), (2, 1), (2, 3), (3, 3), (3, 4)] := by decide
+example : ¬ OnCycle [(1, 2), (2, 1), (2, 3), (3, 3), (3, 4)] 4 :=
+  fun h => absurd ((find_cycles_exact _ _).2 h) (by decide)
 
 end SaVerif.Props.C19
